@@ -24,6 +24,7 @@ def dispatch (line : String) : String :=
   | "c09" :: rest => Driver.C02.handleC09 rest out
   | "c11" :: rest => Driver.C11.handle rest out
   | "c06" :: rest => Driver.C06.handle rest out
+  | "c07" :: rest => Driver.C07.handle rest out
   | _ => "BADLINE unknown-tag"
 
 partial def loop (h : IO.FS.Stream) (o : IO.FS.Stream) : IO Unit := do
